@@ -460,6 +460,7 @@ func runInterop(cs caseSpec, x *ctx) *transcript {
 	// ---- data phase: both directions interleaved
 	ni, nr := cs.i2rCount(), cs.r2iCount()
 	tr.noRecord = cs.Sched != "tamper"
+	var kept, keptWant [][]byte
 	for i := 0; i < ni || i < nr; i++ {
 		if rw.pos == len(rw.in) {
 			rw.in, rw.pos = rw.in[:0], 0
@@ -504,6 +505,15 @@ func runInterop(cs caseSpec, x *ctx) *transcript {
 						i, len(cs.DecR)+1, size, err, trunc(got), trunc(c))
 					return tr
 				}
+				// the slices handed to the caller stay the caller's: a later
+				// receive must not change an earlier packet
+				kept, keptWant = append(kept, got), append(keptWant, c)
+				if j := firstChanged(kept, keptWant); j >= 0 {
+					fail(fmt.Sprintf("interop/delivered-packet-changed-later/impl=%s", role),
+						"the contents returned for delivered packet #%d read %s after %d more packet(s) were received; it was delivered as %s",
+						j, trunc(kept[j]), len(kept)-1-j, trunc(keptWant[j]))
+					return tr
+				}
 				if rw.pos != len(rw.in) {
 					fail(fmt.Sprintf("interop/recv-underread/impl=%s", role), "V2ReceivePacket left %d bytes of a complete packet unread", len(rw.in)-rw.pos)
 					return tr
@@ -516,6 +526,12 @@ func runInterop(cs caseSpec, x *ctx) *transcript {
 	err := guard(func() (err error) { extra, err = p.V2ReceivePacket(nil); return })
 	if err == nil || isPanic(err) {
 		fail(fmt.Sprintf("interop/trailing/impl=%s", role), "V2ReceivePacket at end of stream returned contents %s err=%v; want an error", trunc(extra), err)
+		return tr
+	}
+	if j := firstChanged(kept, keptWant); j >= 0 {
+		fail(fmt.Sprintf("interop/delivered-packet-changed-later/impl=%s", role),
+			"the contents returned for delivered packet #%d read %s after the failed receive at the end of the stream; it was delivered as %s",
+			j, trunc(kept[j]), trunc(keptWant[j]))
 		return tr
 	}
 	tr.ok = nfail == 0
@@ -610,11 +626,16 @@ func runTampered(cs caseSpec, tr *transcript, T []byte, fd int, x *ctx) {
 		x.fail(cs, key("handshake-accepted"), "CompleteHandshake returned nil although the peer's handshake bytes were modified; %s", desc())
 		return
 	}
+	var keptT [][]byte // slices exactly as returned (not copies)
 	for i := 0; i <= len(tr.elems)+2; i++ {
 		var got []byte
 		err := guard(func() (err error) { got, err = p.V2ReceivePacket(nil); return })
 		if isPanic(err) {
 			x.fail(cs, key("panic"), "V2ReceivePacket panicked: %v; %s", err, desc())
+			return
+		}
+		if j := firstChanged(keptT, allowed); j >= 0 {
+			x.fail(cs, key("earlier-plaintext-changed"), "after receive #%d (err=%v) the contents returned earlier for message #%d read %s, delivered as %s; %s", i, err, j, trunc(keptT[j]), trunc(allowed[j]), desc())
 			return
 		}
 		if err != nil {
@@ -628,6 +649,7 @@ func runTampered(cs caseSpec, tr *transcript, T []byte, fd int, x *ctx) {
 			x.fail(cs, key("altered-plaintext"), "V2ReceivePacket delivered %s as message #%d, original was %s; %s", trunc(got), i, trunc(allowed[i]), desc())
 			return
 		}
+		keptT = append(keptT, got)
 	}
 	x.fail(cs, key("no-error"), "impl never reported an error; %s", desc())
 }
@@ -774,4 +796,15 @@ func semanticStream(cs caseSpec, tr *transcript, variant int) (T []byte, fd int,
 		T = append(T, e.Enc(contents(1, i, 5), nil, false)...)
 	}
 	return T, 64, name // everything after the key counts as modified handshake
+}
+
+// firstChanged returns the index of the first retained slice that no longer
+// equals what it held when it was delivered (-1: none).
+func firstChanged(kept, want [][]byte) int {
+	for j := range kept {
+		if !bytes.Equal(kept[j], want[j]) {
+			return j
+		}
+	}
+	return -1
 }
